@@ -988,7 +988,7 @@ func (m *Machine) exec(f *Frame, in ssa.Instruction) {
 	case *ssa.Go:
 		m.unsupported("go statement")
 	case *ssa.Select:
-		m.unsupported("select statement")
+		m.execSelect(f, x)
 	default:
 		m.unsupported(fmt.Sprintf("instruction %T", in))
 	}
@@ -1126,5 +1126,77 @@ func (m *Machine) execTypeAssert(f *Frame, x *ssa.TypeAssert) {
 		}
 		f.env[x] = res
 	}
+	f.pc++
+}
+
+
+// execSelect: single goroutine, buffered channels. A case is ready if its receive has a buffered
+// value or a closed channel, or its send has buffer space. Exactly one ready case (or none with a
+// default) is deterministic; several ready cases would be a random choice in Go and end the path
+// as unsupported; none ready without default blocks forever.
+func (m *Machine) execSelect(f *Frame, x *ssa.Select) {
+	var ready []int
+	for i, st := range x.States {
+		ch, _ := m.get(f, st.Chan).(*ChanObj)
+		if ch == nil {
+			continue // nil channel: never ready
+		}
+		if st.Dir == types.RecvOnly {
+			if len(ch.buf) > 0 || ch.closed {
+				ready = append(ready, i)
+			}
+		} else {
+			if ch.closed || len(ch.buf) < ch.cap {
+				ready = append(ready, i)
+			}
+		}
+	}
+	tup := x.Type().(*types.Tuple)
+	res := make(TupleV, tup.Len())
+	for i := range res {
+		res[i] = m.zero(tup.At(i).Type())
+	}
+	switch {
+	case len(ready) == 0 && !x.Blocking:
+		res[0] = m.tt.BV(64, ^uint64(0)) // index -1: default
+	case len(ready) == 0:
+		panic(pathAbort{"blocked", "select with no ready case (single goroutine)"})
+	case len(ready) > 1:
+		m.unsupported("select with several ready cases (random choice in Go)")
+	default:
+		i := ready[0]
+		st := x.States[i]
+		ch := m.get(f, st.Chan).(*ChanObj)
+		res[0] = m.tt.BV(64, uint64(i))
+		if st.Dir == types.RecvOnly {
+			ok := true
+			var v Value
+			if len(ch.buf) > 0 {
+				v = ch.buf[0]
+				ch.buf = ch.buf[1:]
+			} else {
+				v = m.zero(ch.elem)
+				ok = false
+			}
+			res[1] = m.tt.Bool(ok)
+			// received values follow in the order of the receive states
+			pos := 2
+			for j, s2 := range x.States {
+				if s2.Dir != types.RecvOnly {
+					continue
+				}
+				if j == i {
+					res[pos] = v
+				}
+				pos++
+			}
+		} else {
+			if ch.closed {
+				m.rtPanic("closed-chan")
+			}
+			ch.buf = append(ch.buf, m.get(f, st.Send))
+		}
+	}
+	f.env[x] = res
 	f.pc++
 }
